@@ -19,9 +19,11 @@ import (
 // query set takes a few milliseconds; see hang handling in checkFault.
 const cmdTimeout = 20 * time.Second
 
-// servedFromSideFile: values of these (query, column) pairs do not come from a checksummed column
-// block when the named side file exists, so a difference there after damaging that side file is
-// outside the statement ("altered values from a checksummed column block").
+// valueSource: these side files themselves store values that a query displays (sort index: the
+// sorted column's values and record numbers; star tree: group keys and aggregates; segment stats:
+// aggregates; roll-ups: per-bucket counts). A difference in the damaged segment's share after
+// damaging such a file does not come "from a checksummed column block" and is outside the
+// statement; the undamaged segment's share stays asserted.
 func valueSource(kind string) string {
 	switch kind {
 	case "srt":
@@ -30,13 +32,36 @@ func valueSource(kind string) string {
 		return "star tree"
 	case "sst":
 		return "segment stats"
+	case "crup":
+		return "roll-up"
+	case "tsg", "tso", "mbsu", "mnm", "tth", "mmeta":
+		// no file of a metrics segment carries a checksum: which series and which values come back
+		// after damage to them is outside the statement's "checksummed column block"
+		return "metrics segment file"
 	}
 	return ""
 }
 
-func recEqual(a, b sut.Record) (bool, string) {
+// viol is a violation found by the oracle. sym classifies it:
+//
+//	cross     events / groups of the UNDAMAGED segment missing or changed in an answered query
+//	abort     the whole query was rejected with an error, so the undamaged segment's events are not returned
+//	altered   an event of the damaged segment is returned with a value that differs from the original
+//	invented  a returned event / group / aggregate cannot come from stored events of the damaged segment
+//	crash     the server process died
+//	hang      the server does not answer
+type viol struct {
+	sym string
+	msg string
+}
+
+func (v *viol) Error() string { return v.msg }
+
+func violf(sym, f string, a ...interface{}) *viol { return &viol{sym: sym, msg: fmt.Sprintf(f, a...)} }
+
+func recEqual(a, b sut.Record, ign map[string]bool) (bool, string) {
 	for k, v := range a {
-		if v.IsNil() {
+		if v.IsNil() || ign[k] {
 			continue
 		}
 		w, ok := b[k]
@@ -48,7 +73,7 @@ func recEqual(a, b sut.Record) (bool, string) {
 		}
 	}
 	for k, w := range b {
-		if w.IsNil() {
+		if w.IsNil() || ign[k] {
 			continue
 		}
 		if v, ok := a[k]; !ok || v.IsNil() {
@@ -59,9 +84,9 @@ func recEqual(a, b sut.Record) (bool, string) {
 }
 
 // subRecord: every value present in r equals the original's; missing lists original columns absent from r.
-func subRecord(r, orig sut.Record) (diff string, missing []string) {
+func subRecord(r, orig sut.Record, ign map[string]bool) (diff string, missing []string) {
 	for k, v := range r {
-		if v.IsNil() {
+		if v.IsNil() || ign[k] {
 			continue
 		}
 		w, ok := orig[k]
@@ -100,31 +125,43 @@ func vidFromWord(r sut.Record) (int64, bool) {
 }
 
 type verdict struct {
-	o  *pt.Obs
-	fc *faultCase
-	e  *envT
+	o       *pt.Obs
+	fc      *faultCase
+	e       *envT
+	noticed bool // some answer differs from the one on undamaged files
 }
 
 func errInfo(a *answer) string {
 	return fmt.Sprintf("(response: err=%q errors=%v records=%d)", a.Err, a.Errors, a.N)
 }
 
+// ctrlSym: the undamaged segment's part of an answer is wrong. If the query as a whole was
+// rejected with an error this is an "abort", otherwise a silent cross-segment effect.
+func ctrlSym(a *answer) string {
+	if a.Err != "" {
+		return "abort"
+	}
+	return "cross"
+}
+
 // judgeRecords applies the oracle to a query that returns events.
-func (v *verdict) judgeRecords(q querySpec, a, b *answer) error {
+func (v *verdict) judgeRecords(q querySpec, a, b *answer) *viol {
 	e, o := v.e, v.o
 	full := e.base[0] // match-all on the undamaged files: the original of every event
+	ign := e.unstable[q.Name]
 	reported := a.Err != "" || len(a.Errors) > 0
 	// control segment: every event the undamaged server returned for this query, unchanged
-	for vid, want := range b.Recs {
+	for _, vid := range sortedVids(b.Recs) {
 		if !e.isCtrl[vid] {
 			continue
 		}
+		want := b.Recs[vid]
 		got, ok := a.Recs[vid]
 		if !ok {
-			return fmt.Errorf("query %q: event _vid=%d of the UNDAMAGED segment is no longer returned %s", q.Text, vid, errInfo(a))
+			return violf(ctrlSym(a), "query %q: event _vid=%d of the UNDAMAGED segment is no longer returned %s", q.Text, vid, errInfo(a))
 		}
-		if eq, d := recEqual(got, want); !eq {
-			return fmt.Errorf("query %q: event _vid=%d of the UNDAMAGED segment changed: %s\n  got  %v\n  want %v", q.Text, vid, d, got, want)
+		if eq, d := recEqual(got, want, ign); !eq {
+			return violf("cross", "query %q: event _vid=%d of the UNDAMAGED segment changed: %s\n  got  %v\n  want %v", q.Text, vid, d, got, want)
 		}
 	}
 	missing, partial := 0, 0
@@ -135,37 +172,37 @@ func (v *verdict) judgeRecords(q querySpec, a, b *answer) error {
 			}
 		}
 	}
-	check := func(r sut.Record) error {
+	check := func(r sut.Record) *viol {
 		vid, hasVid := r["_vid"].Int()
-		if !hasVid && !r["_vid"].IsNil() && r["_vid"] != "" {
-			return fmt.Errorf("query %q returned a record whose _vid is not an integer (%q): %v", q.Text, r["_vid"], r)
+		if _, present := r["_vid"]; present && !hasVid && !r["_vid"].IsNil() {
+			return violf("altered", "query %q returned a record whose _vid is not an integer (%q): %v", q.Text, r["_vid"], r)
 		}
 		if wv, ok := vidFromWord(r); ok {
 			if hasVid && wv != vid {
-				return fmt.Errorf("query %q returned a record mixing two events (_vid=%d, word of %d): %v", q.Text, vid, wv, r)
+				return violf("altered", "query %q returned a record mixing two events (_vid=%d, word of %d): %v", q.Text, vid, wv, r)
 			}
 			vid, hasVid = wv, true
 		}
 		if hasVid {
 			if e.isCtrl[vid] {
 				if _, inBase := b.Recs[vid]; !inBase {
-					return fmt.Errorf("query %q: event _vid=%d of the UNDAMAGED segment is returned although it is not part of the answer on undamaged files: %v", q.Text, vid, r)
+					return violf("cross", "query %q: event _vid=%d of the UNDAMAGED segment is returned although it is not part of the answer on undamaged files: %v", q.Text, vid, r)
 				}
-				if eq, d := recEqual(r, full.Recs[vid]); !eq {
-					return fmt.Errorf("query %q: event _vid=%d of the UNDAMAGED segment changed: %s", q.Text, vid, d)
+				if eq, d := recEqual(r, full.Recs[vid], ign); !eq {
+					return violf("cross", "query %q: event _vid=%d of the UNDAMAGED segment changed: %s", q.Text, vid, d)
 				}
 				return nil
 			}
 			orig, ok := full.Recs[vid]
 			if !ok {
-				return fmt.Errorf("query %q returned an event that was never stored (_vid=%d): %v", q.Text, vid, r)
+				return violf("invented", "query %q returned an event that was never stored (_vid=%d): %v", q.Text, vid, r)
 			}
 			if _, inBase := b.Recs[vid]; !inBase {
 				o.Class("dmg_event_outside_answer")
 			}
-			diff, miss := subRecord(r, orig)
+			diff, miss := subRecord(r, orig, ign)
 			if diff != "" {
-				return fmt.Errorf("query %q: event _vid=%d of the damaged segment is returned with an altered value: %s %s\n  got      %v\n  original %v",
+				return violf("altered", "query %q: event _vid=%d of the damaged segment is returned with an altered value: %s %s\n  got      %v\n  original %v",
 					q.Text, vid, diff, errInfo(a), r, orig)
 			}
 			if len(miss) > 0 {
@@ -175,21 +212,21 @@ func (v *verdict) judgeRecords(q querySpec, a, b *answer) error {
 		}
 		// no identity: must be a sub-record of some original event of the damaged segment
 		for dv := range e.isDmg {
-			if diff, _ := subRecord(r, full.Recs[dv]); diff == "" {
+			if diff, _ := subRecord(r, full.Recs[dv], ign); diff == "" {
 				partial++
 				return nil
 			}
 		}
-		return fmt.Errorf("query %q returned a record that is not part of any stored event %s: %v", q.Text, errInfo(a), r)
+		return violf("invented", "query %q returned a record that is not part of any stored event %s: %v", q.Text, errInfo(a), r)
 	}
-	for _, r := range a.Recs {
-		if err := v.tolerate(q, check(r)); err != nil {
-			return err
+	for _, vid := range sortedVids(a.Recs) {
+		if vl := check(a.Recs[vid]); vl != nil {
+			return vl
 		}
 	}
 	for _, r := range a.Odd {
-		if err := v.tolerate(q, check(r)); err != nil {
-			return err
+		if vl := check(r); vl != nil {
+			return vl
 		}
 	}
 	if a.Dups > 0 {
@@ -197,36 +234,38 @@ func (v *verdict) judgeRecords(q querySpec, a, b *answer) error {
 	}
 	switch {
 	case missing > 0 && reported:
-		o.Class(q.Name + "_missing_with_error")
+		v.outcome(q, "missing_with_error")
 	case missing > 0:
-		o.Class(q.Name + "_missing_silently")
+		v.outcome(q, "missing_silently")
 	case partial > 0 && reported:
-		o.Class(q.Name + "_partial_with_error")
+		v.outcome(q, "partial_with_error")
 	case partial > 0:
-		o.Class(q.Name + "_partial_silently")
+		v.outcome(q, "partial_silently")
 	case reported:
-		o.Class(q.Name + "_complete_with_error")
+		v.outcome(q, "complete_with_error")
 	default:
-		o.Class(q.Name + "_as_original")
+		v.outcome(q, "as_original")
 	}
 	return nil
 }
 
-// tolerate drops a value difference that the statement does not cover: the damaged file is a side
-// file that itself stores the values the query displays (no checksummed column block involved).
-// Differences in events of the undamaged segment are never dropped.
-func (v *verdict) tolerate(q querySpec, err error) error {
-	if err == nil {
-		return nil
+// outcome records how a query's answer relates to the answer on undamaged files. Any outcome
+// other than as_original shows that the query read the damaged bytes (the non-trivial rule).
+func (v *verdict) outcome(q querySpec, what string) {
+	v.o.Class(q.Name + "_" + what)
+	if what != "as_original" {
+		v.noticed = true
+		v.o.Count("noticed/"+v.fc.Kind+"/"+q.Name, 1)
 	}
-	if strings.Contains(err.Error(), "UNDAMAGED") {
-		return err
+}
+
+func sortedVids(m map[int64]sut.Record) []int64 {
+	out := make([]int64, 0, len(m))
+	for v := range m {
+		out = append(out, v)
 	}
-	if src := valueSource(v.fc.Kind); src != "" {
-		v.o.Class("value_from_damaged_" + v.fc.Kind)
-		return nil
-	}
-	return err
+	sort.Slice(out, func(i, j int) bool { return out[i] < out[j] })
+	return out
 }
 
 func measure(m map[string]sut.TV, name string) (float64, bool) {
@@ -247,15 +286,86 @@ func sameBucket(got, want map[string]sut.TV) bool {
 	return true
 }
 
+// share is an aggregate over a set of stored events.
+type share struct{ count, sum, min, max float64 }
+
+// includesShare: the aggregate got contains at least the share (count and sum not below, min not
+// above, max not below). Measures the query does not compute are not compared.
+func includesShare(got map[string]sut.TV, sh *share) bool {
+	if g, ok := measure(got, "count"); !ok || g < sh.count {
+		return false
+	}
+	if g, ok := measure(got, "sum"); ok && g < sh.sum {
+		return false
+	}
+	if g, ok := measure(got, "max"); ok && g < sh.max {
+		return false
+	}
+	if g, ok := measure(got, "min"); ok && g > sh.min {
+		return false
+	}
+	return true
+}
+
+// ctrlShare computes what the undamaged segment alone contributes to group key of query q
+// (nil: nothing), from the original events.
+func (e *envT) ctrlShare(q querySpec, key string) *share {
+	var sh *share
+	for vid := range e.isCtrl {
+		r := e.base[0].Recs[vid]
+		var k string
+		switch q.Name {
+		case "stats_by":
+			seg, _ := r["seg"].Str()
+			grp, _ := r["grp"].Str()
+			k = seg + "\x1f" + grp
+		case "stats_tree":
+			k, _ = r["seg"].Str()
+		case "timechart":
+			ts, _ := r["timestamp"].Float()
+			// buckets are aligned to the query's start time
+			k = fmt.Sprintf("%d", e.lo+(uint64(ts)-e.lo)/chartSpanMs*chartSpanMs)
+		case "stats_all":
+			k = key
+		}
+		if k != key {
+			continue
+		}
+		n, _ := r["num"].Float()
+		if sh == nil {
+			sh = &share{min: n, max: n}
+		}
+		sh.count++
+		sh.sum += n
+		if n < sh.min {
+			sh.min = n
+		}
+		if n > sh.max {
+			sh.max = n
+		}
+	}
+	return sh
+}
+
+func (e *envT) isCtrlNum(n float64) bool {
+	for vid := range e.isCtrl {
+		if f, ok := e.base[0].Recs[vid]["num"].Float(); ok && f == n {
+			return true
+		}
+	}
+	return false
+}
+
 // judgeStats applies the oracle to the statistics queries.
 //
-// Grouped by seg (stats_by: seg, grp; stats_tree: seg): every group of the undamaged segment
-// (seg=c) must be returned exactly as on undamaged files; a group of the damaged segment must be
+// Grouped by seg (stats_by: seg, grp; stats_tree: seg) or by time bucket (timechart): every group
+// that the undamaged segment contributes to must be returned; if only the undamaged segment
+// contributes to it on undamaged files, exactly as there. A group of the damaged segment must be
 // one that exists on undamaged files, and its measures must be obtainable from a subset of the
 // stored events of that group (count and sum not above the original, min/max stored values).
 // Without grouping (stats_all) the result must be the undamaged segment's events plus a subset of
 // the damaged segment's.
-func (v *verdict) judgeStats(q querySpec, a, b *answer) error {
+func (v *verdict) judgeStats(q querySpec, a, b *answer) *viol {
 	e := v.e
 	reported := a.Err != "" || len(a.Errors) > 0
 	nums := map[float64]bool{}
@@ -265,10 +375,14 @@ func (v *verdict) judgeStats(q querySpec, a, b *answer) error {
 		sumD += float64(n)
 		cntD++
 	}
+	sideFile := valueSource(v.fc.Kind) != ""
 	if q.Name != "stats_all" {
 		same := true
-		for key, want := range b.Buckets {
-			if !strings.HasPrefix(key, "c") {
+		keys := pt.SortedKeys(b.Buckets)
+		for _, key := range keys {
+			want := b.Buckets[key]
+			ctrlShare := e.ctrlShare(q, key)
+			if ctrlShare == nil {
 				if _, ok := a.Buckets[key]; !ok {
 					same = false
 				}
@@ -276,96 +390,83 @@ func (v *verdict) judgeStats(q querySpec, a, b *answer) error {
 			}
 			got, ok := a.Buckets[key]
 			if !ok {
-				return fmt.Errorf("query %q: group %q of the UNDAMAGED segment is no longer returned %s", q.Text, key, errInfo(a))
+				return violf(ctrlSym(a), "query %q: group %q, to which the UNDAMAGED segment contributes, is no longer returned %s", q.Text, key, errInfo(a))
 			}
-			if !sameBucket(got, want) {
-				return fmt.Errorf("query %q: group %q of the UNDAMAGED segment changed: %v, on undamaged files %v %s", q.Text, key, got, want, errInfo(a))
+			wc, _ := measure(want, "count")
+			pure := wc == ctrlShare.count // only the undamaged segment contributes on undamaged files
+			switch {
+			case sideFile || !pure:
+				// the damaged segment (or a side file that stores its group keys) may add to this group
+				if !includesShare(got, ctrlShare) {
+					return violf("cross", "query %q: group %q lost the share of the UNDAMAGED segment: %v, undamaged segment alone %v %s", q.Text, key, got, ctrlShare, errInfo(a))
+				}
+			default:
+				if !sameBucket(got, want) {
+					return violf("cross", "query %q: group %q of the UNDAMAGED segment changed: %v, on undamaged files %v %s", q.Text, key, got, want, errInfo(a))
+				}
 			}
 		}
-		for key, m := range a.Buckets {
+		for _, key := range pt.SortedKeys(a.Buckets) {
+			m := a.Buckets[key]
 			bd, known := b.Buckets[key]
-			if strings.HasPrefix(key, "c") && known {
-				continue
-			}
 			if !known {
-				tag := "a group that no stored event belongs to"
-				if strings.HasPrefix(key, "c") {
-					tag = "a group for the UNDAMAGED segment that does not exist on undamaged files"
-				}
-				if err := v.tolerate(q, fmt.Errorf("query %q returned %s: %q %v %s", q.Text, tag, key, m, errInfo(a))); err != nil {
-					return err
-				}
-				same = false
-				continue
+				return violf("invented", "query %q returned a group that no stored event belongs to: %q %v %s", q.Text, key, m, errInfo(a))
 			}
 			if !sameBucket(m, bd) {
 				same = false
 			}
+			if e.ctrlShare(q, key) != nil && sameBucket(m, bd) {
+				continue
+			}
 			var derr error
 			bc, _ := measure(bd, "count")
-			bs, _ := measure(bd, "sum")
+			bs, hasSum := measure(bd, "sum")
 			if c, ok := measure(m, "count"); !ok || c < 0 || c > bc {
 				derr = fmt.Errorf("count not in [0,%v]", bc)
-			} else if s, ok := measure(m, "sum"); ok && (s < 0 || s > bs) {
+			} else if s, ok := measure(m, "sum"); hasSum && ok && (s < 0 || s > bs) {
 				derr = fmt.Errorf("sum(num)=%v not in [0,%v]", s, bs)
-			} else if mn, ok := measure(m, "min"); ok && !nums[mn] {
+			} else if mn, ok := measure(m, "min"); ok && !nums[mn] && !e.isCtrlNum(mn) {
 				derr = fmt.Errorf("min(num)=%v is not a stored value", mn)
-			} else if mx, ok := measure(m, "max"); ok && !nums[mx] {
+			} else if mx, ok := measure(m, "max"); ok && !nums[mx] && !e.isCtrlNum(mx) {
 				derr = fmt.Errorf("max(num)=%v is not a stored value", mx)
 			}
 			if derr != nil {
-				if err := v.tolerate(q, fmt.Errorf("query %q: group %q cannot come from stored events of the damaged segment: %v; got %v, on undamaged files %v %s",
-					q.Text, key, derr, m, bd, errInfo(a))); err != nil {
-					return err
-				}
+				return violf("invented", "query %q: group %q cannot come from stored events: %v; got %v, on undamaged files %v %s",
+					q.Text, key, derr, m, bd, errInfo(a))
 			}
 		}
 		v.classStats(q, same, reported)
 		return nil
 	}
 	// stats over both segments: the undamaged segment's share must be in the result
-	var sumC, cntC float64
-	minC, maxC := 1e18, -1e18
-	for vid := range e.isCtrl {
-		n, _ := e.base[0].Recs[vid]["num"].Float()
-		nums[n] = true
-		sumC += n
-		cntC++
-		if n < minC {
-			minC = n
-		}
-		if n > maxC {
-			maxC = n
-		}
-	}
-	var m, bm map[string]sut.TV
+	var bm, m map[string]sut.TV
 	for _, mm := range a.Buckets {
 		m = mm
 	}
 	for _, mm := range b.Buckets {
 		bm = mm
 	}
+	share := e.ctrlShare(q, "")
 	if m == nil || len(a.Buckets) != 1 {
-		return fmt.Errorf("query %q returns %d results although the UNDAMAGED segment holds %v events %s", q.Text, len(a.Buckets), cntC, errInfo(a))
+		return violf(ctrlSym(a), "query %q returns %d results although the UNDAMAGED segment holds events %s", q.Text, len(a.Buckets), errInfo(a))
+	}
+	if !includesShare(m, share) {
+		return violf("cross", "query %q: the result lost the share of the UNDAMAGED segment: %v, undamaged segment alone %v %s", q.Text, m, share, errInfo(a))
 	}
 	same := sameBucket(m, bm)
+	cntC, sumC := share.count, share.sum
 	var derr error
-	if c, ok := measure(m, "count"); !ok || c < cntC || c > cntC+cntD {
+	if c, ok := measure(m, "count"); !ok || c > cntC+cntD {
 		derr = fmt.Errorf("count=%v not in [%v,%v]", c, cntC, cntC+cntD)
-	} else if s, ok := measure(m, "sum"); !ok || s < sumC || s > sumC+sumD {
+	} else if s, ok := measure(m, "sum"); !ok || s > sumC+sumD {
 		derr = fmt.Errorf("sum(num)=%v not in [%v,%v]", s, sumC, sumC+sumD)
-	} else if mn, ok := measure(m, "min"); !ok || mn > minC || !nums[mn] {
-		derr = fmt.Errorf("min(num)=%v, the UNDAMAGED segment alone has %v", mn, minC)
-	} else if mx, ok := measure(m, "max"); !ok || mx < maxC || !nums[mx] {
-		derr = fmt.Errorf("max(num)=%v, the UNDAMAGED segment alone has %v", mx, maxC)
+	} else if mn, ok := measure(m, "min"); !ok || (!nums[mn] && !e.isCtrlNum(mn)) {
+		derr = fmt.Errorf("min(num)=%v is not a stored value", mn)
+	} else if mx, ok := measure(m, "max"); !ok || (!nums[mx] && !e.isCtrlNum(mx)) {
+		derr = fmt.Errorf("max(num)=%v is not a stored value", mx)
 	}
 	if derr != nil {
-		// no tolerance needed for the control share: a damaged side file of the other segment
-		// can only change that segment's share, and the bounds above allow any share
-		if err := v.tolerate(q, fmt.Errorf("query %q: result cannot come from the stored events: %v; got %v, on undamaged files %v %s",
-			q.Text, derr, m, bm, errInfo(a))); err != nil {
-			return err
-		}
+		return violf("invented", "query %q: result cannot come from the stored events: %v; got %v, on undamaged files %v %s", q.Text, derr, m, bm, errInfo(a))
 	}
 	v.classStats(q, same, reported)
 	return nil
@@ -374,33 +475,97 @@ func (v *verdict) judgeStats(q querySpec, a, b *answer) error {
 func (v *verdict) classStats(q querySpec, same, reported bool) {
 	switch {
 	case same && reported:
-		v.o.Class(q.Name + "_complete_with_error")
+		v.outcome(q, "complete_with_error")
 	case same:
-		v.o.Class(q.Name + "_as_original")
+		v.outcome(q, "as_original")
 	case reported:
-		v.o.Class(q.Name + "_missing_with_error")
+		v.outcome(q, "missing_with_error")
 	default:
-		v.o.Class(q.Name + "_missing_silently")
+		v.outcome(q, "changed_silently")
 	}
 }
 
+// judge applies the oracle to every answer. A violation is dropped when the statement does not
+// cover it (value served by the damaged side file itself) or when it belongs to a listed open
+// finding; the first remaining one is returned.
 func (v *verdict) judge(res []*answer) error {
 	for i, q := range v.e.queries {
 		if res[i] == nil {
 			continue
 		}
-		var err error
+		var vl *viol
 		switch q.Name {
-		case "stats_by", "stats_all", "stats_tree":
-			err = v.judgeStats(q, res[i], v.e.base[i])
+		case "stats_by", "stats_all", "stats_tree", "timechart":
+			vl = v.judgeStats(q, res[i], v.e.base[i])
 		default:
-			err = v.judgeRecords(q, res[i], v.e.base[i])
+			vl = v.judgeRecords(q, res[i], v.e.base[i])
 		}
-		if err != nil {
-			return err
+		if vl == nil {
+			continue
 		}
+		v.noticed = true
+		v.o.Count("noticed/"+v.fc.Kind+"/"+q.Name, 1)
+		if (vl.sym == "altered" || vl.sym == "invented") && valueSource(v.fc.Kind) != "" {
+			v.o.Class("value_from_damaged_" + v.fc.Kind)
+			continue
+		}
+		if id := knownFinding(v.fc, vl.sym, vl.msg); id != "" {
+			v.o.Known(id)
+			v.o.Class("known_" + id + "_" + vl.sym)
+			continue
+		}
+		return vl
 	}
 	return nil
+}
+
+// knownFinding returns the id of the listed open finding that covers symptom sym of fault fc.
+// The predicates are over the input (which file was damaged); the symptom narrows what is
+// tolerated for that input.
+func knownFinding(fc *faultCase, sym, detail string) string {
+	switch fc.Kind {
+	case "bsu":
+		// block summaries (.bsu) hold record counts, time ranges and the offset/length of every
+		// column block, without a checksum
+		switch sym {
+		case "abort", "altered", "invented":
+			if pt.KnownFindingOpen("C18-bsu-unchecksummed") {
+				return "C18-bsu-unchecksummed"
+			}
+		}
+	case "cmi":
+		if sym == "crash" && (strings.Contains(detail, "readCmis") || strings.Contains(detail, "metareader.go") ||
+			strings.Contains(detail, "doBloomCheckForCol") || strings.Contains(detail, "bloom")) && pt.KnownFindingOpen("C18-cmi-reader-unchecked") {
+			return "C18-cmi-reader-unchecked"
+		}
+	case "crup":
+		if sym == "crash" && (strings.Contains(detail, "rollupreader.go") || strings.Contains(detail, "readRollupFile")) &&
+			pt.KnownFindingOpen("C18-rollup-reader-unchecked") {
+			return "C18-rollup-reader-unchecked"
+		}
+	case "srt":
+		crash := sym == "crash" && (strings.Contains(detail, "sortindex.go") || strings.Contains(detail, "deToResults") ||
+			strings.Contains(detail, "out of memory"))
+		if (crash || sym == "abort") && pt.KnownFindingOpen("C18-sortindex-unchecked") {
+			return "C18-sortindex-unchecked"
+		}
+	case "mbsu", "mnm", "tth", "mmeta":
+		crash := sym == "crash" && (strings.Contains(detail, "ReadMetricsBlockSummaries") || strings.Contains(detail, "ReadMetricNames") ||
+			strings.Contains(detail, "tagstreereader.go"))
+		if (crash || sym == "abort") && pt.KnownFindingOpen("C18-metrics-meta-readers-unchecked") {
+			return "C18-metrics-meta-readers-unchecked"
+		}
+	case "strm", "strl":
+		// the star-tree reader panics or runs out of memory on damaged input: the server dies, or
+		// (with the query-goroutine recover of fix 4540117) the whole query is rejected
+		crash := sym == "crash" && (strings.Contains(detail, "agiletreereader.go") || strings.Contains(detail, "ConvertGroupByKeyFromBytes") ||
+			strings.Contains(detail, "out of memory"))
+		abort := sym == "abort" && strings.Contains(detail, "panic")
+		if (crash || abort) && pt.KnownFindingOpen("C18-startree-reader-unchecked") {
+			return "C18-startree-reader-unchecked"
+		}
+	}
+	return ""
 }
 
 // panicSite extracts "file.go:line" of the first siglens frame of a panic trace.
@@ -444,9 +609,6 @@ func checkFault(fc *faultCase, o *pt.Obs) error {
 	o.Class("op_" + fc.Op)
 	o.Class("file_" + f.Kind + "_" + fc.Region)
 	o.Count("faults_"+f.Kind, 1)
-	// every fault changes at least one byte of a file that the query set reads (all files of the
-	// damaged segment are opened by at least one of the six queries or by the start-up load)
-	o.NonTrivial()
 
 	run := func() ([]*answer, *runInfo, error) {
 		if err := e.restore(); err != nil {
@@ -477,6 +639,9 @@ func checkFault(fc *faultCase, o *pt.Obs) error {
 		if errors.Is(te.err, sut.ErrWorkerDied) {
 			return v18crash(fc, o, info.Step, te.detail)
 		}
+		if msg := requestPanic(te.err); msg != "" {
+			return v18crash(fc, o, info.Step, msg)
+		}
 		if errors.Is(te.err, sut.ErrTimeout) {
 			// a time-out under machine load is not a verdict: try the same fault once more, then
 			// make sure an undamaged server answers promptly right now
@@ -502,10 +667,32 @@ func checkFault(fc *faultCase, o *pt.Obs) error {
 	}
 	v := &verdict{o: o, fc: fc, e: e}
 	if err := v.judge(res); err != nil {
-		return fmt.Errorf("fault {%s}: %v", fc, err)
+		return fmt.Errorf("fault {%s}: [%s] %v", fc, err.(*viol).sym, err)
 	}
 	o.Class("outcome_answered")
+	if v.noticed {
+		// non-trivial: the damaged bytes were read - at least one answer differs from the
+		// answer on undamaged files (events missing, values absent, aggregate changed, query
+		// rejected) or the server died
+		o.NonTrivial()
+		o.Class("noticed_" + f.Kind)
+	}
 	return nil
+}
+
+// requestPanic: the query entry point panicked on the goroutine that serves the request (the
+// worker's command loop recovers it and answers "PANIC: ..."). In the server this is the HTTP
+// handler goroutine; the outcome is counted like a crash.
+func requestPanic(err error) string {
+	var oe *sut.OpError
+	if errors.As(err, &oe) && strings.HasPrefix(oe.Msg, "PANIC:") {
+		m := "panic: (on the request goroutine) " + strings.TrimPrefix(oe.Msg, "PANIC:")
+		if len(m) > 2500 {
+			m = m[:2500]
+		}
+		return m
+	}
+	return ""
 }
 
 // runsTree: the star-tree query costs about a second per server (it clears a 300 MB buffer), so
@@ -520,11 +707,26 @@ func runsTree(fc *faultCase) bool {
 
 func v18crash(fc *faultCase, o *pt.Obs, step, detail string) error {
 	o.Class("outcome_crash")
+	o.NonTrivial()
+	o.Class("noticed_" + fc.Kind)
+	o.Count("noticed/"+fc.Kind+"/"+step, 1)
+	if id := knownFinding(fc, "crash", detail); id != "" {
+		o.Known(id)
+		o.Class("known_" + id + "_crash")
+		return nil
+	}
 	return fmt.Errorf("fault {%s}: the server process died during %q: site=[%s]\n%s", fc, step, panicSite(detail), detail)
 }
 
 func v18hang(fc *faultCase, o *pt.Obs, step, detail string) error {
 	o.Class("outcome_hang")
+	o.NonTrivial()
+	o.Class("noticed_" + fc.Kind)
+	if id := knownFinding(fc, "hang", detail); id != "" {
+		o.Known(id)
+		o.Class("known_" + id + "_hang")
+		return nil
+	}
 	return fmt.Errorf("fault {%s}: the server does not answer %q within %v (twice; an undamaged server answers at once)\n%s", fc, step, cmdTimeout, detail)
 }
 
